@@ -225,14 +225,11 @@ def unfocus_fixed_sampling_backprop(wavefunction, input_dx, prop_dist,
     if not isinstance(output_samples, Iterable):
         output_samples = (output_samples, output_samples)
 
-    dias = [output_dx * s for s in output_samples]
-    dia = max(dias)
-    Q = Q_for_sampling(input_diameter=dia,
-                       prop_dist=prop_dist,
-                       wavelength=wavelength,
-                       output_dx=input_dx)  # not a typo
-
-    Q /= wavefunction.shape[0] / output_samples[0]
+    Q = tuple(Q_for_sampling(input_diameter=output_dx * s,
+                             prop_dist=prop_dist,
+                             wavelength=wavelength,
+                             output_dx=input_dx)  # not a typo
+              for s in output_samples)
 
     if shift[0] != 0 or shift[1] != 0:
         shift = (shift[0]/output_dx, shift[1]/output_dx)
